@@ -26,7 +26,8 @@ void vh_transitions(long n);          /* API calls that are transitions */
 void vh_nontrivial(void);             /* current case is non-trivial by the engine's rule */
 void vh_count(const char *name, long n);   /* free-form extra counters (max 16 names) */
 void vh_violation(const char *site, const char *fmt, ...) __attribute__((format(printf, 2, 3)));
-#define VH_RSS_LIMIT_MB 1024              /* the engines stay below 200 MiB; 16 workers at this limit still fit the machine. A wild memory walk under sanitizer shadow does not */
+#define VH_RSS_LIMIT_MB 1024              /* one forked execution of engine T stays below 100 MiB; 16 at this limit still fit the machine. A wild memory walk under ThreadSanitizer's shadow does not */
+#define VH_EXECUTOR_RSS_LIMIT_MB 12288    /* backstop only: a long-lived AddressSanitizer executor legitimately holds 1-1.5 GiB (quarantine, shadow of everything it ever touched) */
 long vh_rss_mb(pid_t pid);
 int vh_wait_child(pid_t p, int *status);  /* waitpid that ends a child growing beyond VH_RSS_LIMIT_MB (then returns 1) */
 long vh_violations(void);           /* violations reported so far by this worker */
